@@ -311,6 +311,11 @@ class Peer(threading.Thread):
                     return
                 if b.handshake == 'garbage':
                     # answer the ClientHello with clear text, then stay until the client says QUIT (or leaves)
+                    try:
+                        hello = c.recv(4096)
+                    except (socket.timeout, OSError):
+                        hello = b''
+                    log.append(('X', 'client hello %d bytes' % len(hello)))
                     c.sendall(b'this is not a TLS record\r\n')
                     while True:
                         line = readline()
